@@ -21,6 +21,8 @@ func init() {
 		Rule{ID: "R16b", Doc: "same server for the UDP and TCP legs", Floor: 4, AllVariants: true, Run: r16b},
 		Rule{ID: "R06a", Doc: "TCP leg: only a cleanly finished connection is reused (shared with C06)", Floor: 4, Run: r06a},
 		Rule{ID: "R06b", Doc: "TCP leg: who may release a connection (shared with C06)", Floor: 2, Run: r06b},
+		Rule{ID: "R05d", Doc: "the UDP leg stamps its wire id into a private copy: the TCP retry sends the original query (shared with C05)", Floor: 5, AllVariants: true, Run: r05d},
+		Rule{ID: "R20d", Doc: "a transport neither keeps nor modifies the caller's query (shared with C20)", Floor: 5, AllVariants: true, Run: r20d},
 	)
 	reg("C05", "Structural necessary conditions of reply demultiplexing on pipelined connections, decided for all paths: "+
 		"(R05a) wire IDs: nextQid is written only by addQueueC, only as nextQid+1, under the connection mutex, and the uint16 conversion is dominated by a guard proving nextQid <= 65535 (no wrap => IDs pairwise distinct for the connection's life); "+
